@@ -336,7 +336,7 @@ static void c06_ctl(const op_t *op, reg *r, int slot) {
 		if (r->created) return; /* one registration per slot and run */
 		reg_create(r, (int)item_get(it, "kind", 0) % RK_NKINDS, (int)item_get(it, "thr", 0) % (PW->n + 1), it);
 		if (sim_violated() || !r->created) return;
-		if (r->kind == RK_PROC) { fl = 0; ff = 0; data = 0; }
+		if (r->kind == RK_PROC) { fl &= (TP_F_ONESHOT | TP_F_DISPATCH); ff = 0; data = 0; } /* a process event ends with the process whatever the flags say */
 		if (r->kind == RK_TIMER && r->relaxed && !item_get(it, "pvtt", 0)) { r->thr = 0; r->relaxed = 0; } /* most timers live on a real thread; "pvtt": on the shared virtual thread */
 		if (r->kind != RK_TIMER) { if (is_read_kind(r->kind) || is_write_kind(r->kind)) ff &= TP_FF_RW_MASK; }
 		if (r->kind == RK_TIMER && (ff & TP_FF_T_ABSTIME)) data += (sim_realtime_offset() + sim_now()) / unit_ns(ff);
